@@ -94,6 +94,9 @@ def run(c, facts):
     import c09 as _c09
     R16 = c.rule('C07.R16', 'CHECK-TOTAL: a kind constraint is applied whenever its position exists, so that acceptance coincides with solvability of the kind constraints (shared with C01.R9)')
     c.shared(R16, _c01.r9_check_total, 'C01.R9', facts)
+    R18 = c.rule('C07.R18', 'DECLARE-FIRST: every name of a module is declared - and a duplicate reported - before any use is resolved, so which error a program gets does not depend on where its declarations stand (shared with C08.R4)')
+    import c08 as _c08
+    c.shared(R18, _c08.r4_order, 'C08.R4', facts)
     R17 = c.rule('C07.R17', 'GRAPH-IDENTITY: the cycle verdict is computed on a graph whose nodes are definitions (module and node), not arena indices that depend on where a declaration stands in its file (shared with C09.R4)')
     c.shared(R17, _c09.r4_graph_complete, 'C09.R4', facts)
     c.run(lambda c: I.reduce_first(c, facts, c.rule('C07.R13', 'REDUCE-FIRST: unify() reduces both operands with the current substitution before inspecting them, in every (recursive) call')))
